@@ -605,7 +605,12 @@ func c07HtpasswdFile(w *vfWorld) string {
 // attributable) and prepares the credential-per-request sessions.
 func c07BuildSessions(run *vfRun, w *vfWorld, p *vfProxy, cfg *c07Cfg, inst int, book *c07TokenBook) []*c07Sess {
 	var out []*c07Sess
-	for _, id := range c07CookieIdents() {
+	for k, id := range c07CookieIdents() {
+		// quick tier: the standard identity plus a rotating 3 of the other 7 per instance (all of them on the fixed
+		// structured configurations); every identity meets every option bucket across the instances
+		if !run.Env.Thorough() && k > 0 && !strings.Contains(cfg.Label, "fixed") && (k-1+7-inst%7)%7 >= 3 {
+			continue
+		}
 		sub := fmt.Sprintf("%s#%d", id.Sub, inst)
 		vid := vfIdentity{Sub: sub, Email: id.Email, PreferredUsername: id.PU, Groups: id.Groups, Profile: map[string]interface{}{"sub": sub}}
 		if id.GroupsClaimAbsent {
@@ -682,7 +687,7 @@ func c07BuildSessions(run *vfRun, w *vfWorld, p *vfProxy, cfg *c07Cfg, inst int,
 // ---------------------------------------------------------------------------------------------------------
 // spoofing
 
-var c07SpoofStyles = []string{"none", "canonical-x1", "lower-x1", "UPPER-x2", "mIxEd-x3", "comma-joined", "case-mix-x3", "as-configured+lookalike"}
+var c07SpoofStyles = []string{"none", "canonical-x1", "lower-x1", "UPPER-x2", "mIxEd-x3", "comma-joined", "case-mix-x3", "as-configured+lookalike", "connection-listed"}
 
 func c07Case(name, how string) string {
 	switch how {
@@ -725,14 +730,27 @@ func c07Spoof(req *vfReq, style int, names []string, sess *c07Sess, tag string) 
 		client[strings.ToLower(name)] = append(client[strings.ToLower(name)], v)
 		lines++
 	}
-	authzCase := []string{"canonical", "canonical", "lower", "upper", "mixed", "canonical", "lower", "canonical"}[style]
+	authzCase := []string{"canonical", "canonical", "lower", "upper", "mixed", "canonical", "lower", "canonical", "canonical"}[style]
 	if sess.Authz != "" { // the genuine credential comes first: it is the one the proxy reads
 		put(c07Case("Authorization", authzCase), "Authorization", sess.Authz)
 		lines--
 	}
+	if style == 8 && len(names) > 0 {
+		// no spoofed value at all: the client declares the configured names hop-by-hop ("Connection: <names>"), which asks
+		// every proxy on the way to drop them before forwarding
+		var listed []string
+		for i, name := range names {
+			listed = append(listed, c07Case(name, []string{"lower", "configured", "upper", "mixed", "canonical"}[(i+int(tag[len(tag)-1]))%5]))
+		}
+		if int(tag[len(tag)-1])%2 == 0 {
+			listed = append([]string{"keep-alive"}, listed...)
+		}
+		req.H("Connection", strings.Join(listed, ", "))
+		lines++
+	}
 	for _, name := range names {
 		switch style {
-		case 0:
+		case 0, 8:
 		case 1:
 			put(c07Case(name, "canonical"), name, val(name))
 		case 2:
@@ -849,7 +867,11 @@ func c07Drive(run *vfRun, w *vfWorld, p *vfProxy, cfg *c07Cfg, inst int, session
 				caseNo++
 				id := fmt.Sprintf("c07-%d-%d", inst, caseNo)
 				tag := fmt.Sprintf("%d.%d", inst, caseNo)
-				req := vfNewReq("GET", ep.Target, "X-Vf-Id", id)
+				method := "GET"
+				if ep.Name == "proxied" || ep.Name == "bypassed" {
+					method = []string{"GET", "POST", "GET", "PUT", "GET", "DELETE", "GET", "PATCH", "GET", "HEAD"}[caseNo%10]
+				}
+				req := vfNewReq(method, ep.Target, "X-Vf-Id", id)
 				if sess.Cookie != "" {
 					req.H("Cookie", sess.Cookie)
 				}
@@ -959,7 +981,7 @@ func c07Drive(run *vfRun, w *vfWorld, p *vfProxy, cfg *c07Cfg, inst int, session
 						}
 						verdict := c07Judge(exp, obs)
 						if verdict == "" {
-							if cfg.PreferEmail && sess.HasSession && sess.Email == "" && len(h.Vals) == 1 && h.Vals[0].Claim == "email-or-user" && c07Judge(c07Expect(h, nil, cl), obs) == "" {
+							if style != 8 && cfg.PreferEmail && sess.HasSession && sess.Email == "" && len(h.Vals) == 1 && h.Vals[0].Claim == "email-or-user" && c07Judge(c07Expect(h, nil, cl), obs) == "" {
 								run.Count("observed_prefer_email_session_without_email_gets_no_username_"+sess.Source, 1) // accepted: "no value when the claim is empty"
 							}
 							continue
@@ -977,6 +999,8 @@ func c07Drive(run *vfRun, w *vfWorld, p *vfProxy, cfg *c07Cfg, inst int, session
 							}
 						}
 						switch {
+						case style == 8 && leak == "" && c07Judge(c07ExpectS(h, nil, cl), obs) == "" && len(obs) == 0:
+							sig, what = "c07:connection-header-drops-injected-header", "the client listed the name in its Connection header and the injected value is dropped before the upstream"
 						case leak != "" && cfg.Kind == "legacy" && cfg.PreferEmail && h.Optional && strings.EqualFold(h.Name, "X-Forwarded-Email"):
 							sig, what = "c07:prefer-email:x-forwarded-email-not-stripped", "client-supplied value reaches the upstream (--prefer-email-to-user leaves X-Forwarded-Email unmanaged)"
 						case leak != "":
@@ -1021,6 +1045,44 @@ func c07MatchAny(alts [][]c07Part, line string) bool {
 
 // ---------------------------------------------------------------------------------------------------------
 
+func c07UsesTimeClaim(c *c07Cfg) bool {
+	for _, hs := range [][]c07Hdr{c.Req, c.Resp} {
+		for _, h := range hs {
+			for _, v := range h.Vals {
+				if v.Claim == "created_at" || v.Claim == "expires_on" {
+					return true
+				}
+			}
+		}
+	}
+	return false
+}
+
+// c07FixedAlpha: structured configurations that do not depend on the seed, so that the combinations the property is
+// most sensitive to are present in every run: time claims (with every session kind, including those without
+// timestamps), non-canonical configured names with preserve on/off and strip-only entries, several values per header.
+func c07FixedAlpha() []c07Cfg {
+	cl := func(c string) c07Val { return c07Val{Kind: "claim", Claim: c} }
+	out := []c07Cfg{
+		{Label: "alpha-fixed-times", Bucket: "alpha|fixed|time-claims",
+			Req: []c07Hdr{{Name: "X-Session-Created", Vals: []c07Val{cl("created_at")}}, {Name: "X-Session-Expires", Vals: []c07Val{{Kind: "claim", Claim: "expires_on", Prefix: "exp="}}},
+				{Name: "x-session-both", Preserve: true, Vals: []c07Val{cl("user"), cl("created_at"), cl("expires_on")}}, {Name: "Authorization", Vals: []c07Val{{Kind: "claim", Claim: "created_at", Basic: true, Pw: "tpw", Src: "value"}}}},
+			Resp: []c07Hdr{{Name: "X-Auth-Time", Vals: []c07Val{cl("created_at"), cl("expires_on")}}, {Name: "X-Auth-Request-User", Vals: []c07Val{cl("user")}}}},
+		{Label: "alpha-fixed-noncanonical", Bucket: "alpha|fixed|noncanonical-names",
+			Req: []c07Hdr{{Name: "x-custom-USER", Vals: []c07Val{cl("user")}}, {Name: "X-LOWER-upper", Preserve: true, Vals: []c07Val{cl("email")}}, {Name: "x-strip-only"},
+				{Name: "X-fORWARDED-gROUPS", Vals: []c07Val{{Kind: "claim", Claim: "groups", Prefix: "grp:"}, {Kind: "secret", Secret: "static-1", Src: "value"}, cl("preferred_username")}}},
+			Resp: []c07Hdr{{Name: "x-r-lower", Vals: []c07Val{cl("groups"), cl("email")}}, {Name: "X-Auth-Request-Preferred-Username", Vals: []c07Val{cl("preferred_username")}}}},
+		{Label: "alpha-fixed-all-claims", Bucket: "alpha|fixed|all-claims",
+			Req: []c07Hdr{{Name: "X-All", Vals: []c07Val{cl("user"), cl("email"), cl("groups"), cl("preferred_username"), cl("access_token"), cl("refresh_token"), cl("no_such_claim")}},
+				{Name: "X-Id-Token", Vals: []c07Val{{Kind: "claim", Claim: "id_token", Prefix: "Bearer "}}}, {Name: "Authorization", Preserve: true, Vals: []c07Val{{Kind: "claim", Claim: "email", Basic: true, Pw: "from-file-pw", Src: "fromFile"}}}},
+			Resp: []c07Hdr{{Name: "X-R-All", Vals: []c07Val{cl("user"), cl("groups"), {Kind: "secret", Secret: c07EnvSecret, Src: "fromEnv"}}}}},
+	}
+	for k := range out {
+		out[k].Kind = "alpha"
+	}
+	return out
+}
+
 func c07Configs(run *vfRun) []c07Cfg {
 	var cfgs []c07Cfg
 	rng := rand.New(rand.NewSource(run.Env.Seed*104729 + 7))
@@ -1060,20 +1122,43 @@ func c07Configs(run *vfRun) []c07Cfg {
 		cfgs = append(cfgs, c)
 	}
 	n := 0
+	cfgs = append(cfgs, c07FixedAlpha()...)
 	for k := 0; k < run.Env.Pick(40, 200); k++ {
 		cfgs = append(cfgs, c07AlphaCfg(rng, k, &n))
 	}
 	// htpasswd users on a bounded number of instances (inotify instances are a scarce per-user resource)
-	budget, every := run.Env.Pick(14, 28), run.Env.Pick(7, 40)
+	// Priority: configurations that inject a time claim (sessions without timestamps exist only for htpasswd users),
+	// then prefer-email configurations (the user name stands in for the e-mail), then every n-th.
+	budget, every := run.Env.Pick(16, 32), run.Env.Pick(9, 45)
+	give := func(k int) {
+		if budget <= 0 || cfgs[k].ExpectRejected || cfgs[k].Htpasswd {
+			return
+		}
+		budget--
+		cfgs[k].Htpasswd = true
+		if k%2 == 0 {
+			cfgs[k].HtGroups = []string{"hg1", "hg 2"}
+			cfgs[k].Flags = append(cfgs[k].Flags, "--htpasswd-user-group=hg1", "--htpasswd-user-group=hg 2")
+		}
+	}
+	nTime := 0
 	for k := range cfgs {
 		cfgs[k].Flags = append(cfgs[k].Flags, "--skip-auth-route=^/open/", "--skip-jwt-bearer-tokens=true")
-		if budget > 0 && !cfgs[k].ExpectRejected && (k%every == 0 || (cfgs[k].PreferEmail && k%3 == 0)) {
-			budget--
-			cfgs[k].Htpasswd = true
-			if k%2 == 0 {
-				cfgs[k].HtGroups = []string{"hg1", "hg 2"}
-				cfgs[k].Flags = append(cfgs[k].Flags, "--htpasswd-user-group=hg1", "--htpasswd-user-group=hg 2")
-			}
+		if c07UsesTimeClaim(&cfgs[k]) && nTime < run.Env.Pick(7, 14) {
+			nTime++
+			give(k)
+		}
+	}
+	nPE := 0
+	for k := range cfgs {
+		if cfgs[k].PreferEmail && !cfgs[k].ExpectRejected && nPE < run.Env.Pick(4, 8) && k%2 == 0 {
+			nPE++
+			give(k)
+		}
+	}
+	for k := range cfgs {
+		if k%every == 0 {
+			give(k)
 		}
 	}
 	return cfgs
